@@ -201,7 +201,8 @@ def run(ctx):
                     words[style] = (op_const(s_["rv"]["op"]) or {}).get("str")
         ctx.check(len(set(words.values())) == 4 and None not in words.values(), "R07.4", fnkey(b) + "#distinct-words", loc(b),
                   "the identifier suffixes of the four styles are not distinct (%s): generated const-string types would collide" % words)
-    mn = [x for x in F.all_bodies(MAC) if x.name in ("metric_name", "inflect_no_prefix") and x.path.startswith("metrique_macro::inflect::")]
+    # the functions that compute a field's emitted name: whatever they are called, they consult the explicit `name = ..` override
+    mn = [x for x in F.all_bodies(MAC) if x.kind in ("Fn", "AssocFn") and x.path.startswith("metrique_macro::inflect::") and any(c.name == "name_override" for c in x.calls())]
     ctx.floor("R07.4", "macro name functions", len(mn), 2)
     for b in mn:
         ov = [c for c in b.calls() if c.name == "name_override"]
@@ -215,7 +216,15 @@ def run(ctx):
                     okp = not any(x.bb in reach for x in ap if x.name != "name")
         ctx.check(okp, "R07.4", fnkey(b) + "#explicit-name-wins", loc(b), "an explicit `name = ...` override is inflected / prefixed like a derived name")
     # ------------------------------------------------------------------ R07.2 generator <-> trait positional agreement
-    gen = [x for x in F.all_bodies(MAC) if x.name == "make_inflect_base"]
+    # the generator of the per-field Inflect type: the body that builds four ConstStr items through one local helper
+    def _const_str_callee(x):
+        cnt = {}
+        for c in x.calls():
+            if c.def_.startswith(MAC) and len(c.args) == 2 and local_callee_bodies(F, c):
+                cnt[c.def_] = cnt.get(c.def_, 0) + 1
+        four = [d for d, n in cnt.items() if n == 4]
+        return four[0] if len(four) == 1 else None
+    gen = [x for x in F.all_bodies(MAC) if x.kind in ("Fn", "AssocFn") and _const_str_callee(x) and any(c.name == "push_lt" for c in x.calls())]
     ctx.floor("R07.2", "Inflect type generator", len(gen), 1)
     for b in gen:
         pr = Prov(b)
@@ -236,7 +245,8 @@ def run(ctx):
                             continue          # the sanitised identifier base (always PascalCase) is not a style choice
                         work.extend(t.get("args", []))
             return sorted(st)
-        cs = [c for c in b.calls() if c.name == "const_str"]
+        csd = _const_str_callee(b)
+        cs = [c for c in b.calls() if c.def_ == csd]
         ctx.check(len(cs) == 4, "R07.2", fnkey(b) + "#four-const-strs", loc(b), "expected four ConstStr definitions, found %d" % len(cs))
         ident_style = {}
         for c in cs:
